@@ -231,11 +231,16 @@ func BipartiteKneserGraph(n, k int) *DenseGraph {
 	}
 
 	g := NewDense(size, nil)
+	//One set contains the other when their intersection is the whole of the smaller one.
+	smaller := k
+	if n-k < k {
+		smaller = n - k
+	}
 	for i := 0; i < N; i++ {
 		combi := comb.Unrank(i, k)
 		for j := 0; j < N; j++ {
 			combj := comb.Unrank(j, n-k)
-			if sortints.IntersectionSize(combi, combj) == k {
+			if sortints.IntersectionSize(combi, combj) == smaller {
 				g.AddEdge(i, N+j)
 			}
 		}
